@@ -32,6 +32,11 @@
 (***************************************************************************)
 EXTENDS Integers, Sequences, FiniteSets
 
+\* Names (tags) of the machine's deviations that are still OPEN in known_findings: the machine side
+\* follows the repaired code for every deviation that is not in this set, so that the transcription
+\* neither drifts after a fix nor hides a regression (the harness fills it from the findings' status).
+CONSTANT OpenDevs
+
 (***************************************************************************)
 (* 1. Exact numbers                                                        *)
 (***************************************************************************)
@@ -480,7 +485,11 @@ LMach(s) == FromM(ML!Outcome(ML!SolveFresh(ToM(s))))
 (*    behaviour depends on it:                                             *)
 (*      "BT"  BooleanType     (<, >, <=, >=, != of numbers, &&, ||, ~)     *)
 (*      "np"  numpy.bool_     (== of numbers)                              *)
-(*      "py"  bool            (== / != of BooleanTypes)                    *)
+(*      "py"  bool            (== of BooleanTypes)                         *)
+(*      "pyne" bool           (!= of BooleanTypes: OperatorNe is not       *)
+(*                            wrapped and BooleanType has no __ne__)       *)
+(*    Since 98cfc9d the logical solver's CustomEq wraps the result of ==   *)
+(*    into a BooleanType; "np"/"py" remain only while "not_of_eq" is open. *)
 (*    Result: [r |-> "T"|"F"|"E"(raises)|"U"(floating point decides),      *)
 (*             pt |-> python type, dev |-> set of named deviations]        *)
 (***************************************************************************)
@@ -517,7 +526,9 @@ MCmpMag(op, l, kl, r, kr, conv) ==
        [] op = ">=" -> Or3(gt, close)
 
 Neg3(p) == IF p = "T" THEN "F" ELSE IF p = "F" THEN "T" ELSE p
-ResType(op) == IF op = "==" THEN "np" ELSE "BT"
+BareEq == "not_of_eq" \in OpenDevs
+ResType(op) == IF op = "==" /\ BareEq THEN "np" ELSE "BT"
+BoolCmpType(op) == IF op = "==" THEN (IF BareEq THEN "py" ELSE "BT") ELSE "pyne"
 \* self.convert(unit): only when both sides carry a unit and they differ; raises across dimensions
 NeedsConv(from, to) == from # "" /\ to # "" /\ from # to
 ConvFails(from, to) == NeedsConv(from, to) /\ UDim(from) # UDim(to)
@@ -528,7 +539,7 @@ MagIn(x, to) == IF NeedsConv(x.u, to) THEN QDiv(ABase(x), USc(to)) ELSE AMag(x)
 MCmpNum(op, x, y) ==
   IF x.kind = "lit" /\ y.kind = "lit" THEN
        \* _prepare: self.value = float(self.value); other stays a STRING, units are ignored
-       IF op = "==" THEN MR(MCmpMag("==", AMag(x), x.k, AMag(y), y.k, FALSE), "np", {"lit_vs_lit"})
+       IF op = "==" THEN MR(MCmpMag("==", AMag(x), x.k, AMag(y), y.k, FALSE), ResType("=="), {"lit_vs_lit"})
        ELSE IF op = "!=" THEN MR(Neg3(MCmpMag("==", AMag(x), x.k, AMag(y), y.k, FALSE)), "BT", {"lit_vs_lit"})
        ELSE MErr({"lit_vs_lit"})                                       \* float < str : TypeError
   ELSE IF x.kind # "lit" /\ y.kind # "lit" /\ x.kind # y.kind THEN
@@ -559,11 +570,11 @@ MCmp(op, x, y) ==
        LET m == MCmpNum(op, AT(x.tok), AT(y.tok)) IN [m EXCEPT !.dev = m.dev \cup x.dev \cup y.dev]
   ELSE IF x.num THEN (IF AT(x.tok).kind = "lit" THEN MR("U", ResType(op), x.dev \cup y.dev)   \* bool('300')
                       ELSE MErr(x.dev \cup y.dev))          \* node against a boolean: NameError
-  ELSE IF y.num THEN MR("U", "py", x.dev \cup y.dev)        \* BooleanType.__eq__(number): value comparison
+  ELSE IF y.num THEN MR("U", BoolCmpType(op), x.dev \cup y.dev)   \* BooleanType.__eq__(number): value comparison
   ELSE IF op \notin {"==", "!="} THEN MErr(x.dev \cup y.dev) \* BooleanType has no ordering
-  ELSE IF x.pt = "np" \/ y.pt = "np" THEN MR("U", "py", x.dev \cup y.dev \cup {"eq_of_numeric_eq"})
-  ELSE IF x.r = "U" \/ y.r = "U" THEN MR("U", "py", x.dev \cup y.dev)
-  ELSE MR(IF (x.r = y.r) = (op = "==") THEN "T" ELSE "F", "py", x.dev \cup y.dev)
+  ELSE IF x.pt = "np" \/ y.pt = "np" THEN MR("U", BoolCmpType(op), x.dev \cup y.dev \cup {"eq_of_numeric_eq"})
+  ELSE IF x.r = "U" \/ y.r = "U" THEN MR("U", BoolCmpType(op), x.dev \cup y.dev)
+  ELSE MR(IF (x.r = y.r) = (op = "==") THEN "T" ELSE "F", BoolCmpType(op), x.dev \cup y.dev)
 \* CustomAnd / CustomOr wrap bare bools into BooleanType; `self.value and other.value`
 MLogic(op, x, y) ==
   IF x.r = "E" THEN x ELSE IF y.r = "E" THEN y
@@ -575,6 +586,7 @@ MLogic(op, x, y) ==
 MNot(x) ==
   IF x.r = "E" THEN x
   ELSE IF x.num THEN MErr(x.dev)
+  ELSE IF x.pt = "pyne" THEN MErr(x.dev \cup {"not_of_bool_ne"})   \* bool has no logical_not
   ELSE IF x.pt # "BT" THEN MErr(x.dev \cup {"not_of_eq"})    \* numpy.bool_ / bool has no logical_not
   ELSE MR(IF x.r = "U" THEN "U" ELSE IF x.r = "T" THEN "F" ELSE "T", "BT", x.dev)
 MAtom(tok) == LET a == AT(tok) IN IF a.kind \in NumKinds THEN MNum(tok) ELSE MR(IF a.bv THEN "T" ELSE "F", "BT", {})
@@ -626,7 +638,9 @@ LFeatures(s) == LET r == LParse(s) IN IF r.ok THEN CmpFeatures(r.tree, 1).f ELSE
 (*      \s*{[^}]*}), part_slice, part_format (regex :[0-9.]*[sdfeb]+);     *)
 (*      if value_ref and ccode[0]=='}': replace, else copy the sign.       *)
 (***************************************************************************)
-MFmtOK(t) == t \in {"F.2f", "F03d"}            \* formats the regex :[0-9.]*[sdfeb]+ accepts
+\* formats the old regex :[0-9.]*[sdfeb]+ accepted; since 0920e69 the full format specification
+FmtSdfeb(t) == t \in {"F.2f", "F03d"}
+MFmtOK(t) == t \in TFmts /\ (FmtSdfeb(t) \/ "format_outside_sdfeb" \notin OpenDevs)
 TERR == << [k |-> "err", s |-> "", ref |-> "", sl |-> <<-1, -1>>, fmt |-> ""] >>
 IsTErr(x) == x # <<>> /\ x[Len(x)].k = "err"
 TUNK == << [k |-> "unk", s |-> "", ref |-> "", sl |-> <<-1, -1>>, fmt |-> ""] >>
@@ -642,7 +656,9 @@ TMachFrom(s, i) ==
   ELSE IF s[i] = "{" /\ i + 1 <= Len(s) /\ s[i + 1] \in TRefs THEN
        LET j1 == MAfterSl(s, i)
            j2 == MAfterFmt(s, i)
-       IN IF j2 > Len(s) THEN TERR                                   \* p.ccode[0] on an empty string: IndexError
+       IN IF j2 > Len(s) THEN (IF "reference_at_end_of_text" \in OpenDevs
+                               THEN TERR                             \* p.ccode[0] on an empty string: IndexError
+                               ELSE <<SegText("{")>> \o TMachFrom(s, i + 1))   \* p.ccode[:1] since 0920e69
           ELSE IF s[j2] = "}" THEN
                <<SegRef(s[i + 1], IF j1 > i + 2 THEN TSliceOf(s[j1 - 1]) ELSE <<-1, -1>>,
                         IF j2 = j1 + 1 THEN TFmtOf(s[j1]) ELSE "")>> \o TMachFrom(s, j2 + 1)
@@ -656,7 +672,7 @@ TMach(s) == TMachFrom(s, 1)
 \* named deviations of the template machine
 TFeatures(s) ==
   (IF \E i \in 1..Len(s) : s[i] = "{" /\ TRefLen(s, i) > 0 /\
-        (LET fp == IF s[i + 2] \in TSlices THEN i + 3 ELSE i + 2 IN s[fp] \in TFmts /\ ~MFmtOK(s[fp]))
+        (LET fp == IF s[i + 2] \in TSlices THEN i + 3 ELSE i + 2 IN s[fp] \in TFmts /\ ~FmtSdfeb(s[fp]))
    THEN {"format_outside_sdfeb"} ELSE {})
   \cup (IF \E i \in 1..Len(s) : s[i] = "{" /\ i + 1 <= Len(s) /\ s[i + 1] \in TRefs /\ TRefLen(s, i) = 0 /\
           MAfterFmt(s, i) > Len(s)
